@@ -399,4 +399,11 @@ class Derived(Base):
 
     def fresh(self):
         return True
+
+
+# AST list fields that contain None next to nodes: kw_defaults of a required keyword-only parameter, keys of a ** unpacking
+def kwonly(x, *, a, b=1 + 2, c, d=LIMIT - 1):
+    base = {"p": x + 1}
+    merged = {**base, "k": a - b, **{"q": c * 2}, "j": d + 1}
+    return merged, [*base, x - 1], (lambda *, u, v=x + 2: u + v)(u=1)
 '''
